@@ -137,6 +137,7 @@ fn exec(history: &[Op], inj: Inject, recs: &mut Vec<(usize, Rec)>) {
             let decoy = ManuallyAdvancedTimeSource::at_time(UNIX_EPOCH + Duration::from_secs(77_000_000));
             let inner = set_time_source(TimeSource::custom(decoy));
             drop(inner);
+            crate::time_source_scope_left_by_a_panic();
             Timer::start_now()
         }
     };
